@@ -226,6 +226,13 @@ class Driver:
         return engine.exec(command)
 
 
+def simenv_repo():
+    """root of the tree under test (the directory that holds the imported `simaple` package)"""
+    import os
+    import simaple
+    return os.path.dirname(os.path.dirname(os.path.abspath(simaple.__file__)))
+
+
 def json_roundtrip_logs(logs):
     from simaple.simulate.policy.base import OperationLog
     return [OperationLog.model_validate(json.loads(l.model_dump_json())) for l in logs]
@@ -313,6 +320,15 @@ def hash_chain_problems(logs):
                 j = repr(ex)
             if j != i:
                 probs.append("get_hash_index(hash of log %d) = %r" % (i, j))
+        for unknown in ("0" * 40, hashes[-1][::-1] if hashes[-1][::-1] not in hashes else "f" * 40):
+            if unknown in hashes:
+                continue
+            try:
+                probs.append("get_hash_index(%r), not the hash of any log, = %r" % (unknown, h.get_hash_index(unknown)))
+            except ValueError:
+                pass
+            except Exception as ex:     # noqa
+                probs.append("get_hash_index(%r) raised %r, not ValueError" % (unknown, ex))
     return probs
 
 
